@@ -3,6 +3,7 @@
 import ast
 
 from .. import tables
+from ..canon import single_assignments
 from ..pat import find_expr, find_stmt, match_expr, match_stmt
 from ..pm import src
 from ..q import FA, call_name, guard_facts, ifs_on, walk_no_nested
@@ -127,13 +128,23 @@ def run(ctx):
 
     # ---- C08.4 NFlow definitions ---------------------------------------------------------------------
     nf = prog.cls("nessai.flows.base:NFlow")
-    ok1 = len(find_stmt("$$z, $$J = self._transform(inputs, context=context)", nf.methods["log_prob"].node)) == 1 and len(find_stmt("$$lp = self._distribution.log_prob($$z)", nf.methods["log_prob"].node)) == 1
-    ctx.ob("R-SIB", "C08.4", nf.methods["log_prob"], "log_prob(x) = base log-density of the transformed x + log|det| of the forward transform", ok1 and len(find_stmt("return $$lp + $$J", nf.methods["log_prob"].node)) == 1, "")
+    def _ret(fi, pattern, binds):
+        """the single return of fi matches `pattern` after inlining single-assignment locals"""
+        rr_ = [n for n in walk_no_nested(fi.node) if isinstance(n, ast.Return)]
+        return len(rr_) == 1 and rr_[0].value is not None and match_expr(pattern, rr_[0].value, binds, inline=single_assignments(fi.node)) is not None
+
+    g = nf.methods["log_prob"]
+    tj = find_stmt("$$z, $$J = self._transform(inputs, context=context)", g.node)
+    ok1 = len(tj) == 1 and _ret(g, "self._distribution.log_prob($$z) + $$J", tj[0][1])
+    ctx.ob("R-SIB", "C08.4", g, "log_prob(x) = base log-density of the transformed x + log|det| of the forward transform", ok1, "")
     g = nf.methods["sample_and_log_prob"]
-    ok2 = len(find_stmt("$$z, $$lp = self._distribution.sample_and_log_prob(N)", g.node)) == 1 and len(find_stmt("$$x, $$J = self._transform.inverse($$z, context=context)", g.node)) == 1 and len(find_stmt("return ($$x, $$lp - $$J)", g.node)) == 1
+    zs = find_stmt("$$z, $$lp = self._distribution.sample_and_log_prob(N)", g.node)
+    xs = find_stmt("$$x, $$J = self._transform.inverse($$z, context=context)", g.node, {"z": zs[0][1]["z"]}) if len(zs) == 1 else []
+    ok2 = len(zs) == 1 and len(xs) == 1 and _ret(g, "($$x, $$lp - $$J)", {**zs[0][1], **xs[0][1]})
     ctx.ob("R-SIB", "C08.4", g, "sample_and_log_prob = base samples pushed through the inverse, base log-density - log|det inverse|", ok2, "")
     g = nf.methods["forward_and_log_prob"]
-    ok3 = len(find_stmt("$$z, $$J = self.forward(x, context=context)", g.node)) == 1 and len(find_stmt("$$lp = self.base_distribution_log_prob($$z)", g.node)) == 1 and len(find_stmt("return ($$z, $$lp + $$J)", g.node)) == 1
+    tj = find_stmt("$$z, $$J = self.forward(x, context=context)", g.node)
+    ok3 = len(tj) == 1 and _ret(g, "($$z, self.base_distribution_log_prob($$z) + $$J)", tj[0][1])
     ctx.ob("R-SIB", "C08.4", g, "forward_and_log_prob returns the latent point and base log-density + log|det|", ok3, "")
     for nm, want in (("forward", "return self._transform.forward(x, context=context)"), ("inverse", "return self._transform.inverse(z, context=context)"), ("base_distribution_log_prob", "return self._distribution.log_prob(z)")):
         ctx.ob("R-SIB", "C08.4", nf.methods[nm], f"{nm} delegates to the transform / distribution it names", len(find_stmt(want, nf.methods[nm].node)) == 1, "")
